@@ -44,9 +44,16 @@ def perturb(r, v):
     if isinstance(v, uuid.UUID):
         return uuid.UUID(int=(v.int + 1) % 2**128)
     if isinstance(v, datetime.timedelta):
-        return v + datetime.timedelta(microseconds=1)
+        try:
+            return v + datetime.timedelta(microseconds=1)
+        except OverflowError:       # timedelta.max
+            return v - datetime.timedelta(microseconds=1)
     if isinstance(v, datetime.datetime):
-        return v + datetime.timedelta(microseconds=r.choice([1, 1, 999, 1000]))
+        step = datetime.timedelta(microseconds=r.choice([1, 1, 999, 1000]))
+        try:
+            return v + step
+        except OverflowError:       # datetime.max
+            return v - step
     if isinstance(v, tuple):
         if v:
             p = perturb(r, v[0])
@@ -200,8 +207,8 @@ def run(ctx):
         procs.append((nm, start, subprocess.Popen(["timeout", "900", "coqc", *common.COQ_ARGS, "-Q", str(d), "KioG", f"{nm}.v"],
                                                   cwd=d, stdout=subprocess.PIPE, stderr=subprocess.STDOUT, text=True)))
     for nm, start, p in procs:
-        out = p.communicate()[0]
-        if p.returncode != 0:
+        coq_rc, out = common.coq_result(d, nm, p)
+        if coq_rc != 0:
             errs.append(f"{nm}: {out[-800:]}")
         else:
             failing += [start + i for i in common.parse_nat_list(out)]
